@@ -721,6 +721,9 @@ class NetworkGraph(AbstractBaseIR):
                     else:
                         # a scalar source that projects with several delays: one buffer slot per edge
                         buffer_eqs.append(f"index({var}_buffered{buffer_id}, {i}) = {var_delayed}")
+                elif len(delays) == 1:
+                    # a single delayed edge: the buffer is the delayed value of the unit that the edge reads (0-d)
+                    buffer_eqs.append(f"{var}_buffered{buffer_id} = index({var_delayed}, {sidx})")
                 else:
                     # slot `i` of the buffer belongs to the i-th edge (as in the ring-buffer branch); `sidx` is the
                     # unit of the source variable that this edge reads
